@@ -688,7 +688,7 @@ class _History:
         return total, ref_t, 1e-6 * amag * (1.0 + plan["sym_beta"])
 
     # -- gradients ------------------------------------------------------------------------------
-    def _grad_check(self, loss_t, ref_t, do_backward, ll_mean_t=None, adv_res=0.0, n=1):
+    def _grad_check(self, loss_t, ref_t, do_backward, ll_mean_t=None, adv_res=0.0, n=1, ref32_t=None):
         """ll_mean_t / adv_res / n: conditioning of the comparison.  The advantages entering the surrogate
         are float32 differences known to about adv_res; an error of that size on each of n rollouts moves
         the gradient by up to adv_res * mean_i |grad ll_i| <~ adv_res * sqrt(n) * |grad mean(ll)|.  Without
@@ -705,6 +705,18 @@ class _History:
             g_ll = torch.autograd.grad(ll_mean_t, self.policy_params, retain_graph=True, allow_unused=True)
             floor = adv_res * math.sqrt(n) * math.sqrt(sum(float((g.double() ** 2).sum()) for g in g_ll
                                                             if g is not None))
+        # conditioning yardstick: the same reference formula evaluated in float32 (see R.as_float32)
+        cond = [0.0, 0.0]
+        if ref32_t is not None and ref32_t.requires_grad:
+            g32 = torch.autograd.grad(ref32_t, params, retain_graph=True, allow_unused=True)
+            kk = len(self.policy_params)
+            for idx, (a32, a64) in enumerate(zip(g32, g_ref)):
+                if a32 is None and a64 is None:
+                    continue
+                x = a32.double() if a32 is not None else 0.0
+                y = a64.double() if a64 is not None else 0.0
+                cond[0 if idx < kk else 1] += float(((x - y) ** 2).sum())
+            cond = [math.sqrt(c) for c in cond]
         for p in params:
             p.grad = None
         with run.guard(self.scope, "backward()", step=self.step_no):
@@ -722,7 +734,9 @@ class _History:
                 got += float((a ** 2).sum())
             num, den, got = math.sqrt(num), math.sqrt(den), math.sqrt(got)
             run.log.add("grad", self.step_no, name, _hex(round(got, 6)))
-            fl = floor if name == "policy" else 0.0
+            fl = (floor if name == "policy" else 0.0) + 4.0 * cond[0 if name == "policy" else 1]
+            if cond[0 if name == "policy" else 1] > GRAD_RTOL * den:
+                run.probe("grad_float32_conditioning_dominates")
             if not (num <= GRAD_RTOL * den + GRAD_ATOL + fl) or got != got:
                 self.violate(monitor, f"step {self.step_no}: gradient on the {name} parameters differs from the gradient "
                              f"of the reference surrogate: |g - g_ref| = {num:.6g}, |g_ref| = {den:.6g}, |g| = {got:.6g}",
@@ -842,8 +856,11 @@ class _History:
         den = 1.0
         if plan["normalize_adv"]:
             den = R.two_pass([Rsub[i] - V[i] for i in range(b)])[1] + 1e-8
+        with R.as_float32():
+            ref32_t = R.t_ppo(ll_t, old, adv, v_t, Rsub, ent_t, plan["clip_range"], plan["vf_lambda"],
+                              plan["entropy_lambda"])
         self._grad_check(loss_t, ref_t, lambda: loss_t.backward(), ll_t.sum(-1).mean(),
-                         1e-6 * A / den * (1.0 + plan["clip_range"]), b)
+                         1e-6 * A / den * (1.0 + plan["clip_range"]), b, ref32_t=ref32_t)
 
 
 # ------------------------------------------------------------------------------------------------
